@@ -53,6 +53,7 @@ func scenarioClient(sp Spec, oc *Outcome) {
 	baseG := goroutineIDs()
 	baseFd := fdSnapshot()
 	recC := NewRec()
+	recC.slow = time.Duration(sp.SlowCbUs) * time.Microsecond
 	recS := NewRec()
 	wt := time.Duration(sp.WriteTimeout) * time.Millisecond
 	oc.BoundMs = float64(2*sp.WriteTimeout + 3000)
